@@ -407,6 +407,10 @@ HAND = {
     'same_rule_twice_named': '#r: /x/_y & {_y: "a"|"b"}\n#s: /#r/"m"/#r\n',
     'redefinition': '#r: /"a"/x\n#r: /"b"/x/y\n#s: /#r/"c" <= #r\n',
     'redef_ref_not_last': '#z: /#a/"x"\n#z: /"y"\n#a: /"k"/n\n#s: /#z/"c" <= #a\n',
+    # a rule reference inherits name and constraints of the referenced rule, NOT its signers
+    'ref_to_signed_rule': '#root: /"k"/_\n#site: /"a"/s <= #root\n#u: /#site/"u"/_ <= #adm\n#adm: /"m"/_ <= #root\n',
+    # the same signer reached twice: listed twice, and through two rules ending on one node
+    'dup_signers': '#k: /"k"/x\n#p: /"p"/x <= #k | #k\n#q: /"q"/x <= #k\n#q: /"q"/x <= #k\n',
     'temp_rule': '#_t: /"a"/x\n#_t: /"b"\n#s: /"c"/x <= #k\n#k: /"k"/x\n',
     'multi_option_sets': '#r: /x/y & {x: "a"|"b", y: "c"} | {x: "c"}\n#k: /"k"/x\n#s: /#r/"z" <= #k\n',
     'pattern_option': '#r: /x/y/z & {z: x|"c"}\n',
